@@ -27,8 +27,10 @@ namespace
 template<typename PointType>
 void flipNormalTowardOriginCoordinate(const PointType & point, PointType & normal)
 {
-  if (normal.dot(point / point.norm()) > 0) {
-    normal *= -1;
+  // only the Cartesian components take part: the homogeneous coordinate is not a direction
+  constexpr int DIM = romea::core::PointTraits<PointType>::DIM;
+  if (normal.template head<DIM>().dot(point.template head<DIM>() / point.norm()) > 0) {
+    normal.template head<DIM>() *= -1;
   }
 }
 
